@@ -48,7 +48,7 @@ CHECKS = {
   text="Lean theorem history_as_fresh (Props.C12): for every structure, every deterministic solver choice and every call sequence of any "
        "length over the 8 public queries/derivations, the object model with its cache slots answers exactly as a fresh copy; "
        "entries_unchanged. The real object is driven through random and exhaustive histories and compared step by step with fresh objects "
-       "(spec) and with the model (correspondence); both removals are compared with the model and with their defining descriptions.",
+       "(spec) and with the model (correspondence); both removals are compared with the model and with their defining descriptions. Props.C12Ext extends the object model to the rest of BpSeq's public surface — convert_to_dot_bracket(solver) with an explicit solver for every solver outcome of C13, sequence, the pairs dictionary, __eq__, from_string(str(b)) — and proves history_as_fresh_ext (any interleaving, any length, from every consistent cache state), convert_leaves_dot_slot and convert_does_not_poison_cache (explicit conversion and the cached dot_bracket never serve each other's answer; witness (.[[[.)..]]] where FCFS ≠ optimal). The harness sends every full history to the extended model (ss.history_ext) and compares each step with the real object and with fresh objects.",
   note="The model has one slot per cached_property; aliasing between Python objects cannot be expressed in the functional model and is "
        "covered by the history-level differential run (this is how the without_isolated defect was found).",
   technique="Lean 4 proof (cache-slot invariant, induction over the history) + history-level differential testing against fresh objects",
@@ -135,7 +135,7 @@ CHECKS = {
        "written line gives back all 16 fields; 1–4 character names with the alignment rule, 2-letter elements, negative numbers, charge n±); "
        "writePdb_structure (MODEL/ENDMDL around every model, TER after every chain — with the writer's behaviour flag regenerated from "
        "the source; the pre-fix writer is proved to violate it on a two-row witness); pdb_pdb / pdb_cif_pdb / cif_pdb_cif round trips; "
-       "bridges: reader slices = writer offsets = PDB column layout, widths and limits, mmCIF columns and null markers.",
+       "bridges: reader slices = writer offsets = PDB column layout, widths and limits, mmCIF columns and null markers. Props.C09Splitter transports the round-trip and layout theorems to splitter.main: one file per model number (multiset partition of the rows), each PDB file = exactly one MODEL…ENDMDL block with a TER after every chain, reads back to that model's rows for every table within limits, C10 guarantees per model when fitting is needed (skipped ⇔ no fit exists). The splitter runs are compared file by file with the model (split.run), including mmCIF tables that need fitting per model.",
   note="Assumed and validated differentially: Python's ':8.3f' / ':6.2f' of the double nearest to k/1000 prints k/1000 and to_numeric reads "
        "it back; pandas dtypes; the mmcif tokeniser and quoting. mmCIF→mmCIF has no Lean model beyond null markers (correspondence only). "
        "Charge 0 is identified with absent; literal '?'/'.' values are outside the quantifier.",
@@ -146,7 +146,7 @@ CHECKS = {
        "fit_ok_satisfies_limits, fit_ok_preserves_rows (order, names, coordinates, all other fields), fit_chain_map_injective, "
        "fit_residue_map_injective_per_chain, fit_grouping_preserved, fit_refuses_iff (exact characterisation of the ValueError cases as "
        "read from the code, incl. the rows+chain-changes safeguard), fit_total (no other error), fit_then_write_read (via C09). "
-       "Limits 99999 / 9999 / 62-letter chain alphabet are regenerated and pinned by bridges.",
+       "Limits 99999 / 9999 / 62-letter chain alphabet are regenerated and pinned by bridges. can_write_pdb's PDB branch is regenerated as a switch (pdbAssumedToFit); bridge pdb_tables_are_tested; fit_ok_fits covers every format (negation kept for the legacy behaviour: not_fit_ok_fits_full_of_assumed). Props.C10Unifier models unifier.main (group-by, component renaming/filter/sort incl. the categorical sort behaviour, cross-file checks, removal, identifier vote, fit + write) and proves unifier_output_roundtrip (limits, bracketing, read-back), unifier_fit_guarantees, unifier_same_shape, unifier_keeps_coordinates; component order is proved only under the stated hypothesis, with a proved counter-example for the unconditional statement. The real unifier.main runs in-process on generated mixed PDB/mmCIF inputs with recording spies on fit_to_pdb/write_pdb/write_cif: C10's predicate on every fit call, limits on every written table, read-back, shape/coordinate/name checks on the written files, and table-level correspondence with the model (uni.run).",
   note="pandas behaviour (dtypes, groupby) is covered by the correspondence only; the soundness of the executable spec checker against "
        "the theorems is cross-checked with an independent Python evaluator, not proved.",
   technique="Lean 4 proof (first-seen renaming maps, limits) + correspondence on generated overflow tables (multi-character chains, >9999 residues, >99999 atoms, >62 chains)",
